@@ -46,10 +46,16 @@ func buildPlan(id string, pinned map[string]string, tier string) *Plan {
 				p.Units = append(p.Units, Unit{Pkg: pk, Tags: "", Groups: []string{"field", "conv", "bigconv"}, Verify: []string{"bigconv"}})
 			}
 		}
+		for _, pk := range fps {
+			if _, err := os.Stat("/repo/" + strings.TrimPrefix(pk, "./") + "/zz_verif_contracts_async.go"); err == nil {
+				p.Units = append(p.Units, Unit{Pkg: pk, Tags: "purego", Groups: []string{"field", "conv", "async", "execute"}, Verify: []string{"async", "execute"}})
+			}
+		}
 		p.Trusted = []string{"pinned moduli in /verif/contracts/params.json", "axiomatic semantics of encoding/binary big/little-endian accessors"}
+		p.Trusted = append(p.Trusted, "AsyncReadFrom: the go statement is executed as a call where the goroutine is started, execute(n, work) as work(0, n) (independence of the iterations assumed), the channel is an opaque object whose sends and closes are events (blocking and the receiving side are not modelled), the unsafe byte view of the vector is a separate slice with arbitrary contents (nothing is said about the contents of the vector)")
 		p.Trusted = append(p.Trusted, "SetString: the parser of math/big (big.Int.SetString with base 0) is a pair of uninterpreted functions of the characters (accepts / value); Element.SetBigInt enters through its assumed contract (z = v mod q); the big.Int pool is an opaque call")
-		p.NotCovered = []string{"SetBytes / SetBigInt / BigInt / Text / JSON (math/big, strconv): not under contract (SetBigInt: assumed contract)", "Vector AsyncReadFrom (goroutines) / MarshalBinary / UnmarshalBinary: not under contract; of ReadFrom / WriteTo the decoded values are not stated (the reader is opaque), only acceptance-implies-check and the byte counts"}
-		p.Note = "Canonical byte decoders accept exactly encodings below q; encoders and decoders are mutually inverse (lemma functions verified from the two contracts); integer setters produce the residue mod q; comparisons act on the regular value; SetString accepts exactly the strings math/big accepts in base 0, sets the residue mod q of the integer they denote, and otherwise returns (nil, error) with z untouched. Vector.ReadFrom returns nil only if the length prefix and every element buffer were read completely and every element decoder accepted its buffer, and then reports 4 + Bytes*len bytes; Vector.WriteTo returns nil only if every write succeeded, and then reports 4 + Bytes*len bytes."
+		p.NotCovered = []string{"SetBytes / SetBigInt / BigInt / Text / JSON (math/big, strconv): not under contract (SetBigInt: assumed contract)", "Vector AsyncReadFrom: that the elements stored are the decoded values, the byte counter and the interleavings of its goroutines are not under contract (its index safety, its error reporting and the closing of its channel are); Vector MarshalBinary / UnmarshalBinary: not under contract; of ReadFrom / WriteTo the decoded values are not stated (the reader is opaque), only acceptance-implies-check and the byte counts"}
+		p.Note = "Canonical byte decoders accept exactly encodings below q; encoders and decoders are mutually inverse (lemma functions verified from the two contracts); integer setters produce the residue mod q; comparisons act on the regular value; SetString accepts exactly the strings math/big accepts in base 0, sets the residue mod q of the integer they denote, and otherwise returns (nil, error) with z untouched. Vector.ReadFrom returns nil only if the length prefix and every element buffer were read completely and every element decoder accepted its buffer, and then reports 4 + Bytes*len bytes; Vector.WriteTo returns nil only if every write succeeded, and then reports 4 + Bytes*len bytes. Vector.AsyncReadFrom (23 fields, portable build): for every reader and every announced length neither the function nor its conversion goroutine indexes or slices out of range (the byte view of the payload has Bytes bytes per element visited: the obligation that failed on the pinned tree, finding F40), an element that is not below the modulus is counted and a non-nil error is then sent on the channel, a synchronous error is never followed by a send, and the channel is closed exactly once; execute, the field packages' copy of parallel.Execute, hands its goroutines contiguous ranges that partition [0, n)."
 		return p
 	case "C02":
 		p := &Plan{ID: id}
